@@ -518,3 +518,34 @@ def _alpha_guard():
     rel = {ast.Lt: "<", ast.LtE: "≤", ast.Gt: ">", ast.GtE: "≥"}[type(t.ops[0])]
     return (f"/-- {header(path, qual, src, fn)}: `if {ast.unparse(t)}: raise {raise_of(ifs[0].body[0])}` (alpha in micro units) -/\n"
             f"def whitenerAlphaGuard (q : Int) : Py.Res Unit :=\n  if decide ({lhs} {rel} {rhs}) then Py.raise .{raise_of(ifs[0].body[0])} else pure ()\n")
+
+
+REL_OPS = {ast.Lt: "<", ast.LtE: "≤", ast.Gt: ">", ast.GtE: "≥"}
+
+
+@target("rotatorModesGuard", "Decide", ["C17"])
+def _rot_modes_guard():
+    outs = []
+    for path, qual, key, suffix in (("single/eof_rotator.py", "EOFRotator._fit_algorithm", "components", "Single"),
+                                    ("cross/cpcca_rotator.py", "CPCCARotator._fit_algorithm", "components1", "Cross")):
+        src, tree = load(path)
+        fn = find_func(tree, qual)
+        first = fn.body[0]
+        if not (isinstance(first, ast.Assign) and ast.unparse(first.targets[0]) == "n_modes_model"
+                and ast.unparse(first.value) == f"model.data['{key}'].sizes['mode']"):
+            raise TranslationError(f"{qual}: does not start by reading the model's number of modes")
+        guard = fn.body[1]
+        if not (isinstance(guard, ast.If) and raise_of(guard.body[0])):
+            raise TranslationError(f"{qual}: the mode-count check is not the first thing done (state must not be touched before a refusal)")
+        t = guard.test
+        if not (isinstance(t, ast.Compare) and len(t.ops) == 1 and type(t.ops[0]) in REL_OPS):
+            raise TranslationError(f"{qual}: unexpected test " + ast.unparse(t))
+        names = {"self._params['n_modes']": "nModes", "n_modes_model": "nModel"}
+        l, r = ast.unparse(t.left), ast.unparse(t.comparators[0])
+        if l not in names or r not in names:
+            raise TranslationError(f"{qual}: test does not compare the requested with the model's number of modes: " + ast.unparse(t))
+        rel = REL_OPS[type(t.ops[0])]
+        outs.append(f"/-- {header(path, qual, src, fn)}: `if {ast.unparse(t)}: raise {raise_of(guard.body[0])}`, before any state is written -/\n"
+                    f"def rotatorModesGuard{suffix} (nModes nModel : Int) : Py.Res Unit :=\n"
+                    f"  if decide ({names[l]} {rel} {names[r]}) then Py.raise .{raise_of(guard.body[0])} else pure ()\n")
+    return "\n".join(outs)
